@@ -64,6 +64,13 @@ def replay_link(mode, stream, cut, acts, delivered, polls):
     mp.sleep = sleep_hook
     try:
         port = SocketPort('peer', 1, conn=a)
+        closes = []
+        real_close = port._close
+
+        def counting_close():
+            closes.append(1)
+            return real_close()
+        port._close = counting_close
         if mode == 'iterate':
             do_group()
             got = []
@@ -78,6 +85,26 @@ def replay_link(mode, stream, cut, acts, delivered, polls):
                 return 'iterate-raises/' + type(e).__name__, 'iteration raised %r after %r' % (e, got)
             if got != delivered:
                 return 'wrong-messages', 'iteration gave %r expected %r' % (got, delivered)
+        elif mode == 'pending':
+            got = []
+            for j, exp in enumerate(polls):
+                if state['group'] <= j and j < len(groups):
+                    do_group()
+                try:
+                    drained = [b for m in port.iter_pending() for b in m.bytes()]
+                except Exception as e:
+                    return 'iter_pending-raises/' + type(e).__name__, 'drain #%d raised %r' % (j, e)
+                got.append(drained)
+                if drained != exp:
+                    return 'wrong-drain', 'iter_pending #%d gave %r expected %r' % (j, drained, exp)
+            try:
+                rest = [list(m.bytes()) for m in port.iter_pending()]
+            except Exception as e:
+                return 'iter_pending-raises/' + type(e).__name__, repr(e)
+            if rest:
+                return 'late-message', 'iter_pending after the end returned %r' % (rest,)
+            if state['sleeps']:
+                return 'poll-sleeps', 'iter_pending() slept'
         else:
             got = []
             for j, exp in enumerate(polls):
@@ -101,6 +128,11 @@ def replay_link(mode, stream, cut, acts, delivered, polls):
                 return 'late-message', 'poll() after the end returned a message'
         except Exception as e:
             return 'late-raises/' + type(e).__name__, repr(e)
+        # the connection was released exactly once, and stays so
+        port.close()
+        if len(closes) != 1 or a.fileno() != -1:
+            return ('device-not-released', 'after the peer disconnected the socket was released %d times '
+                    '(fileno %d)' % (len(closes), a.fileno()))
         return None
     finally:
         mp.sleep = saved
@@ -271,6 +303,37 @@ def check_server(n_per_client=3):
             if [m for m in got if m.channel == c] != [m for m in sent if m.channel == c]:
                 out.append(('server-fan-in', {'kind': 'server'},
                             'messages of client %d: got %r' % (c, [m for m in got if m.channel == c])))
+        # a third client sends several messages and disconnects before the server looks
+        import select
+        import time
+        c3 = connect('127.0.0.1', portno)
+        late = [mido.Message('note_on', channel=5, note=n) for n in (1, 2, 3)]
+        for m in late:
+            c3.send(m)
+        deadline = time.time() + 2
+        while time.time() < deadline and not select.select([server._socket], [], [], 0.05)[0]:
+            pass                    # the connection is pending, not yet accepted by the server
+        c3.close()
+        c3._rfile.close()
+        c3._wfile.close()
+        time.sleep(0.05)            # let the data and the FIN arrive (loopback)
+        got3 = []
+        state['sleeps'] = 0
+        deadline = time.time() + 3
+        try:
+            while len(got3) < len(late) and time.time() < deadline and state['sleeps'] < 150:
+                m = server.poll()
+                if m is not None:
+                    got3.append(m)
+                else:
+                    state['sleeps'] += 1
+                    time.sleep(0.002)
+        except Hang:
+            pass
+        if got3 != late:
+            out.append(('server-loses-messages-of-disconnected-client', {'kind': 'server'},
+                        'a client sent %d messages and disconnected; the server handed out %r' % (
+                            len(late), got3)))
         return out, None
     finally:
         mp.sleep = saved
@@ -312,7 +375,7 @@ def run(ctx):
     thorough = ctx.tier == 'thorough'
     mm = 3 if thorough else 2
     pr = core.ParallelReplay(ctx, worker, batch_size=400)
-    for mode in ('iterate', 'poll'):
+    for mode in ('iterate', 'poll', 'pending'):
         res = core.run_tlc('SocketLink', cfg(mm, mode), on_emit=pr.push, raw_ints=True,
                            timeout=3000, heap='16g')
         ctx.add_tlc(res, 'SocketLink msgs<=%d %s' % (mm, mode))
